@@ -413,6 +413,30 @@ theorem chased_budget_failure_not_cached (p : Policy) (sh : Shared) (chase : Lis
   unfold chasedFailureCacheable cacheableFailure
   simp [h]
 
+/-- **Policy exhaustion is terminal in `lookup`.** Whenever one attempt of a
+lookup was refused by the request tree's budget, `pickFallbackResponse` returns
+that refusal — whatever error responses, bogus referrals or other errors the
+other authorities produced, in any order: no authority's SERVFAIL can stand in
+for it (and so be recorded as a zone-wide failure or hide the policy error). -/
+theorem work_limit_is_terminal (rcodes : List Nat) (nconfig : Nat) (errs : List LookupErr)
+    (h : LookupErr.workLimit ∈ errs) : pickFallback rcodes nconfig errs = .work := by
+  unfold pickFallback
+  simp [h]
+
+/-- … and the zone-failure recorder itself refuses every request-local cause,
+best-effort work and ended contexts. -/
+theorem zone_failure_needs_shared_evidence (z b c : Bool) (cause : Option ErrClass)
+    (h : zoneFailureRecordable z b c cause = true) :
+    z = true ∧ b = false ∧ c = false ∧
+    cause ≠ some .workLimit ∧ cause ≠ some .attemptLimit ∧ cause ≠ some .maxRecursion ∧
+    cause ≠ some .canceled ∧ cause ≠ some .deadline := by
+  unfold zoneFailureRecordable at h
+  cases z <;> cases b <;> cases c <;> simp at h
+  refine ⟨rfl, rfl, rfl, ?_⟩
+  rcases cause with _ | e
+  · simp
+  · cases e <;> simp_all
+
 /-- every error class the resolver marks as request-local is one the property
 lists (budget, attempt limit, probe limit, nesting bound, cancellation, deadline). -/
 theorem request_local_classes (e : ErrClass) : e.isRequestLocal = true ↔ e ≠ .other := by
@@ -449,6 +473,18 @@ theorem failover_respects_budget (p : Policy) (sh : Shared) (opt : Bool) :
     cases h2 : (apiStep p sh (.debit .outbound true)).2 with
     | limit k l => cases opt <;> simp
     | ok => simp
+
+/-- **Forwarded queries never exceed the transport budget either.** In enforce
+mode, for every sequence of ledger calls run until the first refusal — in
+particular the work of an alias chain of any length through the forwarder
+(`forwardOps`: one upstream query for the client's question, one internal
+sub-query plus one upstream query per hop) — the upstream queries that are
+really sent (admitted outbound debits) stay within `MaxOutboundQueries`. -/
+theorem forwarded_queries_le_budget (p : Policy) (hm : p.mode = .enforce) (ops : List ApiOp) :
+    (runOps p {} ops).2.1 ≤ p.caps.get .outbound := by
+  have := runOps_outbound p hm ops {} (by simp [KTab.get_const])
+  have e : ({} : Shared).ctr.get .outbound = 0 := by simp [KTab.get_const]
+  omega
 
 /-- the EDE codes of the code are the ones the model replies with. -/
 theorem ede_codes_fact : SdnsVerif.Gen.C12.ede_code_network = 0 ∧ SdnsVerif.Gen.C12.ede_code_dnssec = 5 := by
@@ -565,6 +601,15 @@ example : failoverReply pol2 {} true = ({ rcode := 0, ede := none }, true) := by
 example : (pinRun pol2 .pending [.debit .outbound true, .debit .outbound true, .finish,
     .debit .outbound true]).2 = [.ok, .ok, .ok, .limit .outbound 2] := by decide
 example : (pinRun pol2 .pending [.finish, .debit .outbound true]).2 = [.ok, .canceled] := by decide
+
+-- four hops through the forwarder with a transport budget of two: two upstream queries, then the refusal
+example : (runOps pol2 {} (forwardOps 4)).2 = (2, false) := by decide
+example : (runOps { pol2 with caps := KTab.ofList 0 [9, 9, 4, 8, 2, 2, 2, 2] } {} (forwardOps 3)).2 = (4, true) := by decide
+
+-- one lame SERVFAIL arrived, the next attempt was refused by the budget: the refusal is what lookup returns
+example : pickFallback [2] 0 [.workLimit] = .work := by decide
+example : pickFallback [2, 3] 1 [.other] = .resp 1 := by decide
+example : zoneFailureRecordable true false false none = true := by decide
 
 -- a chase that took three hops, then the deadline passed: the next two hop attempts start nothing
 example : (chaseRun {} [.hop, .hop, .hop, .deadline, .hop, .hop]).started = 3 := by decide
